@@ -746,21 +746,28 @@ func runC08(c *Ctx, r *Report) {
 	// ToMultihashWithIO: every success return passes through Normalize and io.Write
 	tm := p.FuncI("entry", "", "ToMultihashWithIO")
 	tf := &Flow{P: p, Fn: tm, Entry: Facts{}}
-	tf.Node = func(n ast.Node, f Facts) {
+	isWrite := func(f *types.Func) bool { return f.Name() == "Write" }
+	writesIn := func(n ast.Node, f Facts) {
+		// a normalisation anywhere in the statement (also as an argument of the writing call) comes first
 		walkNoLit(n, func(nd ast.Node) bool {
 			if call, ok := nd.(*ast.CallExpr); ok {
-				if cf := p.Callee(tm, call); cf != nil {
-					if cf.Name() == "Normalize" {
-						f["normalized"] = true
-					}
-					if cf.Name() == "Write" && f["normalized"] {
-						f["written"] = true
-					}
+				if cf := p.Callee(tm, call); cf != nil && cf.Name() == "Normalize" {
+					f["normalized"] = true
+				}
+			}
+			return true
+		})
+		walkNoLit(n, func(nd ast.Node) bool {
+			if call, ok := nd.(*ast.CallExpr); ok && f["normalized"] {
+				// the codec's Write, directly or through a helper of the package
+				if c.CallReaches(tm, call, isWrite) {
+					f["written"] = true
 				}
 			}
 			return true
 		})
 	}
+	tf.Node = writesIn
 	tf.Run()
 	tf.Exits(func(_ *cfgBlk, ret *ast.ReturnStmt, at Facts) {
 		if ret == nil || len(ret.Results) == 0 {
@@ -773,14 +780,12 @@ func runC08(c *Ctx, r *Report) {
 		okw := at["written"]
 		if !okw {
 			// `return io.Write(...)` form: the write is in the return statement itself
-			walkNoLit(ret, func(nd ast.Node) bool {
-				if call, ok := nd.(*ast.CallExpr); ok {
-					if cf := p.Callee(tm, call); cf != nil && cf.Name() == "Write" && at["normalized"] {
-						okw = true
-					}
-				}
-				return true
-			})
+			here := Facts{}
+			for k := range at {
+				here[k] = true
+			}
+			writesIn(ret, here)
+			okw = here["written"]
 		}
 		r.Check(okw, "R-C08.4", r.Key("R-C08.4", tm, "identifier-from-write", ""), ret.Pos(), "the identifier returned is always the one computed by writing the normalised view", "ToMultihashWithIO can return an identifier without normalising and writing the entry (e.g. a pre-set hash): the same logical entry no longer encodes to the same identifier, and nothing is stored")
 	})
